@@ -265,8 +265,14 @@ where
             .saturating_sub(*control_data_len as usize)
             .saturating_sub(tag_len);
 
-        // TODO figure out encoding size for the capacity
+        // One byte is reserved for the payload length (a second one is spare whenever the
+        // application header is empty, because its length prefix is then not written). A payload
+        // of 2^14 bytes or more needs a 4 byte (2^30: 8 byte) length, so reserve the difference.
         let remaining_payload_capacity = remaining_payload_capacity.saturating_sub(1);
+        let extra_len_bytes = VarInt::try_from(buffered_len.min(remaining_payload_capacity))
+            .map_or(8, |len| len.encoding_size())
+            .saturating_sub(2);
+        let remaining_payload_capacity = remaining_payload_capacity.saturating_sub(extra_len_bytes);
 
         let payload_len = buffered_len.min(remaining_payload_capacity);
 
